@@ -287,6 +287,11 @@ def scn_edges(info, d, cap_edges=10, cap_bits=4):
                 paths[e['target']] = paths[s] + [e]
                 todo.append(e['target'])
     out = []
+    data_states = [x['state'] for x in info['storage']]
+    if dyn:
+        # the Default impl, then every reader
+        out.append([op_line('default'), op_line('state')] + [op_line(f'read {x}') for x in data_states] +
+                   [op_line(f'into {init}')] + [op_line(f'topt {x}') for x in data_states] + [op_line('drop')])
     for e in info['edges'][:cap_edges]:
         if e['src'] not in paths:
             continue
@@ -452,6 +457,9 @@ def module_code(idx, d, text, info):
     A('}')
     # holder
     A('enum HAny { ' + ', '.join(f'{s}({MT(s)})' for s in states) + ' }')
+    # the state a typed call lands in is read off the type the method really returns, not off the model
+    for s in states:
+        A(f'impl From<{MT(s)}> for HAny {{ fn from(m: {MT(s)}) -> HAny {{ HAny::{s}(m) }} }}')
     if dyn:
         A(f'enum Hold {{ T(HAny), D({DT}), Gone }}')
     else:
@@ -534,15 +542,15 @@ def module_code(idx, d, text, info):
             A(f'          if t[0] == "tnopoll" {{ let f = m.{ev["method"]}({arg}); drop(f); (Hold::Gone, "abandoned".to_string()) }} else {{')
             A(f'          let r = catch_unwind(AssertUnwindSafe(move || rt::drive(m.{ev["method"]}({arg}))));')
             A('          match r {')
-            A(f'            Ok(Some(Ok(nm))) => (Hold::T(HAny::{e["target"]}(nm)), "ok".to_string()),')
-            A(f'            Ok(Some(Err((old, ge)))) => (Hold::T(HAny::{e["src"]}(old)), rt::guard_err_text(&ge)),')
+            A('            Ok(Some(Ok(nm))) => (Hold::T(HAny::from(nm)), "ok".to_string()),')
+            A('            Ok(Some(Err((old, ge)))) => (Hold::T(HAny::from(old)), rt::guard_err_text(&ge)),')
             A('            Ok(None) => (Hold::Gone, "abandoned".to_string()),')
             A('            Err(p) => (Hold::Gone, rt::panic_text(p)) } } }')
         else:
             A(f'          let r = catch_unwind(AssertUnwindSafe(move || m.{ev["method"]}({arg})));')
             A('          match r {')
-            A(f'            Ok(Ok(nm)) => (Hold::T(HAny::{e["target"]}(nm)), "ok".to_string()),')
-            A(f'            Ok(Err((old, ge))) => (Hold::T(HAny::{e["src"]}(old)), rt::guard_err_text(&ge)),')
+            A('            Ok(Ok(nm)) => (Hold::T(HAny::from(nm)), "ok".to_string()),')
+            A('            Ok(Err((old, ge))) => (Hold::T(HAny::from(old)), rt::guard_err_text(&ge)),')
             A('            Err(p) => (Hold::Gone, rt::panic_text(p)) } }')
     A('        (a, _) => (Hold::T(a), "nosuch".to_string()) } }')
     A('      ("tdata", Hold::T(a)) => { match (a, t[1]) {')
